@@ -16,6 +16,7 @@ the corresponding `r_lex_ok` / `rc_lookup_ok` to false, which makes `registry_co
 """
 import json, os, re, shutil
 from .translate import strip_comments, func_body, c_unescape
+from .cshape import same_shape
 from .core import REPO
 
 KINDS = [("ds", "Datasource", "datasource"), ("flt", "Filter", "filter"), ("out", "Output", "output")]
@@ -216,37 +217,106 @@ def def_body(src, name):
     return func_body(src[m.start():], name)
 
 
+# The loop-free functions are compared with these reference texts by symbolic execution (vlib/cshape.py): same set of
+# (path condition, calls made, returned expression) modulo parameter names, locals, braces, else-after-return, inverted or
+# constant-first conditions, ?: -- i.e. the behaviour the Coq model (Registry/Model.v) transcribes.
+REF_GENERIC = """
+int snoopy_genericregistry_doesIdExist (char *regArray[], int itemId)
+{
+    if ((0 <= itemId ) && (itemId < snoopy_genericregistry_getCount(regArray))) { return SNOOPY_TRUE; } else { return SNOOPY_FALSE; }
+}
+int snoopy_genericregistry_doesNameExist (char *regArray[], char const * const itemName)
+{
+    if (snoopy_genericregistry_getIdFromName(regArray, itemName) == -1) { return SNOOPY_FALSE; } else { return SNOOPY_TRUE; }
+}
+char* snoopy_genericregistry_getName (char *regArray[], int itemId)
+{
+    if (snoopy_genericregistry_doesIdExist(regArray, itemId)) { return regArray[itemId]; }
+    return NULL;
+}
+"""
+REF_REGISTRY = """
+int R_getCount () { return snoopy_genericregistry_getCount(R_names); }
+int R_doesIdExist (int id) { return snoopy_genericregistry_doesIdExist(R_names, id); }
+int R_doesNameExist (char const * const name) { return snoopy_genericregistry_doesNameExist(R_names, name); }
+int R_getIdFromName (char const * const name) { return snoopy_genericregistry_getIdFromName(R_names, name); }
+char* R_getName (int id) { return snoopy_genericregistry_getName(R_names, id); }
+"""
+REF_CALLS = {
+    "datasource": """
+int R_callById (int id, char * const resultBuf, size_t resultBufSize, char const * const arg)
+{ if (SNOOPY_FALSE == R_doesIdExist(id)) { return -1; } return R_ptrs[id](resultBuf, resultBufSize, arg); }
+int R_callByName (char const * const name, char * const resultBuf, size_t resultBufSize, char const * const arg)
+{ int id; id = R_getIdFromName(name); if (id == -1) { return -1; } return R_ptrs[id](resultBuf, resultBufSize, arg); }
+""",
+    "filter": """
+int R_callById (int id, char const * const arg)
+{ if (SNOOPY_FALSE == R_doesIdExist(id)) { return -1; } return R_ptrs[id](arg); }
+int R_callByName (char const * const name, char const * const arg)
+{ int id; id = R_getIdFromName(name); if (id == -1) { return -1; } return R_ptrs[id](arg); }
+""",
+    "output": """
+int R_callById (int id, char const * const logMessage, char const * const arg)
+{ if (SNOOPY_FALSE == R_doesIdExist(id)) { return -1; } return R_ptrs[id](logMessage, arg); }
+int R_callByName (char const * const name, char const * const logMessage, char const * const arg)
+{ int id; id = R_getIdFromName(name); if (id == -1) { return -1; } return R_ptrs[id](logMessage, arg); }
+int R_dispatch (char const * const logMessage)
+{ const snoopy_configuration_t *CFG; CFG = snoopy_configuration_get(); return R_callByName(CFG->output, logMessage, CFG->output_arg); }
+""",
+}
+
+
+def shape_kw(prefixes):
+    return dict(bool_calls=[p + f for p in prefixes for f in ("_doesIdExist", "_doesNameExist")],
+                id_calls=[p + "_getIdFromName" for p in prefixes])
+
+
+def unbrace(b):
+    """squeezed loop text: drop braces around a single simple statement, merge `int i; i = 0;`"""
+    prev = None
+    while prev != b:
+        prev = b
+        b = re.sub(r"\{(return[^;{}]*;|i\+\+;|\+\+i;|i\+=1;)\}", r"\1", b)
+        b = re.sub(r"\{(if\([^{}]*\)return[^;{}]*;)\}", r"\1", b)
+        b = re.sub(r"\{\}", ";", b)
+    b = re.sub(r"\binti;i=0;", "inti=0;", b)
+    b = re.sub(r"\binti;for\(i=0;", "for(inti=0;", b)
+    b = b.replace("++i", "i++").replace("i+=1", "i++")
+    return b
+
+
 def lookup_shape(run):
-    """Recognise the generic lookup functions and the per-registry wrappers (whitespace-insensitive).
+    """Recognise the generic lookup functions and the per-registry wrappers.
     Returns (sentinel or None, ok, problems)."""
     probs = []
     g = strip_comments(run.src("src/genericregistry.c"))
     S = r'"((?:\\.|[^"\\])*)"'
     ne = lambda a: r"(?:%s!=0|0!=%s)" % (a, a)
-    eq = lambda a: r"(?:%s==0|0==%s)" % (a, a)
+    eq = lambda a: r"(?:%s==0|0==%s|!%s)" % (a, a, a)
     cmp_s = r"strcmp\(regArray\[i\]," + S + r"\)"
+    cmp_n = eq(r"strcmp\(regArray\[i\],itemName\)")
     sentinels = []
-    b = squeeze(def_body(g, "snoopy_genericregistry_getCount"))
-    m = re.fullmatch(r"inti;i=0;while\(" + ne(cmp_s) + r"\)\{i\+\+;\}returni;", b)
+    # the two loops (also tied behaviourally: stream "generic" of the check)
+    b = unbrace(squeeze(def_body(g, "snoopy_genericregistry_getCount")))
+    m = (re.fullmatch(r"inti=0;while\(" + ne(cmp_s) + r"\)i\+\+;returni;", b)
+         or re.fullmatch(r"for\(inti=0;" + ne(cmp_s) + r";i\+\+\);returni;", b)
+         or re.fullmatch(r"inti=0;for\(;" + ne(cmp_s) + r";i\+\+\);returni;", b))
     if m:
         sentinels.append([x for x in m.groups() if x is not None][0])
     else:
-        probs.append("genericregistry getCount: shape not recognised")
-    b = squeeze(def_body(g, "snoopy_genericregistry_getIdFromName"))
-    m = re.fullmatch(r"for\(inti=0;" + ne(cmp_s) + r";i\+\+\)\{if\(" + eq(r"strcmp\(regArray\[i\],itemName\)") + r"\)\{returni;\}\}return-1;", b)
+        probs.append("genericregistry getCount: loop not of a recognised form (while/for up to the sentinel, counting): %s" % b[:120])
+    b = unbrace(squeeze(def_body(g, "snoopy_genericregistry_getIdFromName")))
+    m = (re.fullmatch(r"for\(inti=0;" + ne(cmp_s) + r";i\+\+\)if\(" + cmp_n + r"\)returni;return-1;", b)
+         or re.fullmatch(r"inti=0;while\(" + ne(cmp_s) + r"\)\{if\(" + cmp_n + r"\)returni;i\+\+;\}return-1;", b))
     if m:
         sentinels.append([x for x in m.groups() if x is not None][0])
     else:
-        probs.append("genericregistry getIdFromName: shape not recognised")
-    b = squeeze(def_body(g, "snoopy_genericregistry_doesIdExist"))
-    if not re.fullmatch(r"if\(\(0<=itemId\)&&\(itemId<snoopy_genericregistry_getCount\(regArray\)\)\)\{returnSNOOPY_TRUE;\}else\{returnSNOOPY_FALSE;\}", b):
-        probs.append("genericregistry doesIdExist: shape not recognised")
-    b = squeeze(def_body(g, "snoopy_genericregistry_doesNameExist"))
-    if not re.fullmatch(r"if\(snoopy_genericregistry_getIdFromName\(regArray,itemName\)==-1\)\{returnSNOOPY_FALSE;\}else\{returnSNOOPY_TRUE;\}", b):
-        probs.append("genericregistry doesNameExist: shape not recognised")
-    b = squeeze(def_body(g, "snoopy_genericregistry_getName"))
-    if not re.fullmatch(r"if\(snoopy_genericregistry_doesIdExist\(regArray,itemId\)\)\{returnregArray\[itemId\];\}returnNULL;", b):
-        probs.append("genericregistry getName: shape not recognised")
+        probs.append("genericregistry getIdFromName: loop not of a recognised form (first strcmp match before the sentinel, else -1): %s" % b[:160])
+    kw = shape_kw(["snoopy_genericregistry"])
+    for fn in ("doesIdExist", "doesNameExist", "getName"):
+        ok, why = same_shape(g, "snoopy_genericregistry_" + fn, REF_GENERIC, **kw)
+        if not ok:
+            probs.append("genericregistry " + why)
     sentinel = None
     if len(sentinels) == 2 and sentinels[0] == sentinels[1]:
         try:
@@ -257,26 +327,16 @@ def lookup_shape(run):
             sentinel = None
     if sentinel is None:
         probs.append("genericregistry: sentinel literal not recognised (or differs between getCount and getIdFromName)")
-    # per-registry wrappers
+    # per-registry wrappers and calls
     for _, _, kind in KINDS:
         r = "snoopy_%sregistry" % kind
         src = strip_comments(run.src("src/%sregistry.c" % kind))
-        for fn, gen in (("getCount", r"returnsnoopy_genericregistry_getCount\(%s_names\);" % r),
-                        ("doesIdExist", r"returnsnoopy_genericregistry_doesIdExist\(%s_names,(\w+)\);" % r),
-                        ("doesNameExist", r"returnsnoopy_genericregistry_doesNameExist\(%s_names,(\w+)\);" % r),
-                        ("getIdFromName", r"returnsnoopy_genericregistry_getIdFromName\(%s_names,(\w+)\);" % r),
-                        ("getName", r"returnsnoopy_genericregistry_getName\(%s_names,(\w+)\);" % r)):
-            b = squeeze(def_body(src, "%s_%s" % (r, fn)))
-            if not re.fullmatch(gen, b):
-                probs.append("%s_%s: wrapper shape not recognised" % (r, fn))
-        b = squeeze(def_body(src, r + "_callByName"))
-        m = re.fullmatch(r"int(\w+);\1=%s_getIdFromName\((\w+)\);if\(\1==-1\)\{return-1;\}return%s_ptrs\[\1\]\([\w,]*\);" % (r, r), b)
-        if not m:
-            probs.append("%s_callByName: shape not recognised" % r)
-        b = squeeze(def_body(src, r + "_callById"))
-        m = re.fullmatch(r"if\(SNOOPY_FALSE==%s_doesIdExist\((\w+)\)\)\{return-1;\}return%s_ptrs\[\1\]\([\w,]*\);" % (r, r), b)
-        if not m:
-            probs.append("%s_callById: shape not recognised" % r)
+        ref = (REF_REGISTRY + REF_CALLS[kind]).replace("R_", r + "_")
+        kw = shape_kw([r, "snoopy_genericregistry"])
+        for fn in ENTRY_FUNCS:
+            ok, why = same_shape(src, "%s_%s" % (r, fn), ref, **kw)
+            if not ok:
+                probs.append(why)
     return sentinel, not probs, probs
 
 
@@ -306,12 +366,11 @@ def entry_points(run):
         for m in re.finditer(r"^[ \t]*#[ \t]*define[ \t]+(\w+)\(", src, re.M):
             probs.append("%s defines a function-like macro: %s" % (path, m.group(1)))
         if kind == "output":
-            b = squeeze(def_body(src, r + "_dispatch"))
-            if re.fullmatch(r"(?:const)?snoopy_configuration_t(?:const)?\*CFG;CFG=snoopy_configuration_get\(\);"
-                            r"return%s_callByName\(CFG->output,logMessage,CFG->output_arg\);" % r, b):
+            ok, why = same_shape(src, r + "_dispatch", (REF_REGISTRY + REF_CALLS[kind]).replace("R_", r + "_"), **shape_kw([r]))
+            if ok:
                 dispatch_ok = True
             else:
-                probs.append("%s_dispatch: not `return callByName(CFG->output, logMessage, CFG->output_arg)`" % r)
+                probs.append("%s (expected: return callByName(CFG->output, logMessage, CFG->output_arg) and nothing else)" % why)
     # nobody else may index the arrays
     own = set(os.path.join(run.tree, "src", "%sregistry.c" % kind) for _, _, kind in KINDS)
     for f in sorted(glob.glob(os.path.join(run.tree, "src", "**", "*.[ch]"), recursive=True)):
@@ -321,7 +380,15 @@ def entry_points(run):
         m = re.search(r"\bsnoopy_(?:datasource|filter|output)registry_(?:ptrs|names)\b", t)
         if m:
             probs.append("%s refers to %s outside its registry file" % (os.path.relpath(f, run.tree), m.group(0)))
-    return not probs, dispatch_ok, probs
+    # who uses the registries' API: (file, function) pairs outside the three registry files
+    callers = []
+    for f in sorted(glob.glob(os.path.join(run.tree, "src", "**", "*.c"), recursive=True)):
+        if f in own:
+            continue
+        t = strip_comments(open(f, encoding="utf-8", errors="replace").read())
+        for fn in sorted(set(re.findall(r"\bsnoopy_(?:datasource|filter|output)registry_[A-Za-z]+\b", t))):
+            callers.append((os.path.relpath(f, run.tree), fn))
+    return not probs, dispatch_ok, probs, callers
 
 
 # ------------------------------------------------------------------------------------ configure.ac
@@ -409,11 +476,21 @@ def tr_options(run, notes):
     m = re.search(r"[\w\*\s\(\)\"]*?\b%s_getOptionValueAsString\s*\([^;{}]*\)\s*\{" % R, src)
     b = squeeze(func_body(src[m.start():], R + "_getOptionValueAsString")) if m else ""
     m = re.fullmatch(loop % (r"%s\[i\]\.data\.getValueAsStringPtr\(\)" % R, "NULL"), b)
+    loop_free_getter = False
     if m:
         sents.append([x for x in m.groups() if x is not None][0])
     else:
-        lk = False
-        notes.append("translator: %s_getOptionValueAsString: shape not recognised" % R)
+        # the loop-free form: resolve the id through getIdFromName, refuse "not supported", use that row's getter
+        plain = re.sub(r"__attribute__\s*\(\([^;{}]*?\)\)\)?[ \t]*", "", src).replace("SNOOPY_CONFIGFILE_OPTION_NOT_SUPPORTED", "-1")
+        plain = re.sub(r"^[ \t]*#[^\n]*$", "", plain, flags=re.M)
+        ref = ("char * %s_getOptionValueAsString (char const * const optionName)\n{ int id = %s_getIdFromName(optionName); if (id == -1) { return NULL; } "
+               "return %s[id].data.getValueAsStringPtr(); }\n" % (R, R, R))
+        okk, why = same_shape(plain, R + "_getOptionValueAsString", ref, id_calls=[R + "_getIdFromName"])
+        if okk:
+            loop_free_getter = True
+        else:
+            lk = False
+            notes.append("translator: %s (neither the lookup loop nor getIdFromName + refusal + that row's getter)" % why)
     b = squeeze(def_body(src, "snoopy_configfile_iniParser_callback"))
     if not re.search(r"intoptionId=%s_getIdFromName\(name\);if\(optionId!=SNOOPY_CONFIGFILE_OPTION_NOT_SUPPORTED\)\{return%s\[optionId\]\.data\.valueParserPtr\(confValString,CFG\);\}" % (R, R), b):
         lk = False
@@ -421,7 +498,8 @@ def tr_options(run, notes):
     if not re.search(r"#\s*define\s+SNOOPY_CONFIGFILE_OPTION_NOT_SUPPORTED\s+-1\b", src):
         lk = False
         notes.append("translator: SNOOPY_CONFIGFILE_OPTION_NOT_SUPPORTED is not -1")
-    sentinel = sents[0] if len(sents) == 2 and sents[0] == sents[1] and NAME_OK.match(sents[0]) else None
+    want = 1 if loop_free_getter else 2
+    sentinel = sents[0] if len(sents) == want and len(set(sents)) == 1 and NAME_OK.match(sents[0]) else None
     if sentinel is None:
         lk = False
         notes.append("translator: optionRegistry: sentinel literal not recognised")
@@ -464,7 +542,7 @@ def tr_registry(run):
     sentinel, lookup_ok, probs = lookup_shape(run)
     for p in probs:
         notes.append("translator: " + p)
-    entries_ok, dispatch_ok, probs = entry_points(run)
+    entries_ok, dispatch_ok, probs, callers = entry_points(run)
     for p in probs:
         notes.append("translator: " + p)
     feats, generic, hin, n2 = configure_switches(run)
@@ -478,16 +556,17 @@ def tr_registry(run):
     text = ("(* GENERATED from the current working tree by vlib/tr_registry.py -- do not edit *)\n"
             "From Coq Require Import String List.\nFrom Snoopy Require Import Registry.Model Registry.Options.\nImport ListNotations.\nLocal Open Scope string_scope.\n\n"
             + "".join("Definition %s : registry :=\n  %s.\n\n" % (k, reg_term(regs[k])) for k, _, _ in KINDS)
-            + "Definition consts : registry_consts :=\n  {| rc_sentinel := %s;\n     rc_lookup_ok := %s;\n     rc_entries_ok := %s;\n     rc_dispatch := %s;\n     rc_ds := ds; rc_flt := flt; rc_out := out;\n"
+            + "Definition consts : registry_consts :=\n  {| rc_sentinel := %s;\n     rc_lookup_ok := %s;\n     rc_entries_ok := %s;\n     rc_dispatch := %s;\n     rc_callers := %s;\n     rc_ds := ds; rc_flt := flt; rc_out := out;\n"
               "     rc_configure_features := %s;\n     rc_configure_generic := %s;\n     rc_confighin := %s |}.\n"
             % (coq_str(sentinel if sentinel is not None else ""), "true" if lookup_ok else "false",   # unrecognised: lookup_ok is false, "" keeps the model runnable
                "true" if entries_ok else "false", "DispatchCallByName" if dispatch_ok else "DispatchOther",
+               coq_list("(%s, %s)" % (coq_str(f), coq_str(fn)) for f, fn in callers),
                coq_list(coq_str(g) for g in feats), coq_list(coq_str(g) for g in generic), coq_list(coq_str(g) for g in hin)))
     text += ("\n(* EXTENSION: option registry of src/configfile.c (guards rewritten to the configure switch they are derived from in snoopy.h) *)\n"
              "Definition options : opt_registry :=\n  {| o_rows := %s;\n     o_sentinel := %s;\n     o_lex_ok := %s;\n     o_lookup_ok := %s |}.\n"
              % (coq_optrows(opts["rows"]), coq_str(opts["sentinel"] or ""), "true" if opts["lex_ok"] else "false", "true" if opts["lookup_ok"] else "false"))
     run.write_gen("Gen_Registry.v", text)
-    js = {"sentinel": sentinel, "lookup_ok": lookup_ok, "entries_ok": entries_ok, "dispatch_ok": dispatch_ok, "configure_features": feats, "configure_generic": generic, "confighin": hin,
+    js = {"sentinel": sentinel, "lookup_ok": lookup_ok, "entries_ok": entries_ok, "dispatch_ok": dispatch_ok, "callers": callers, "configure_features": feats, "configure_generic": generic, "confighin": hin,
           "registries": {k: {"kind": regs[k]["kind"], "names": regs[k]["names"], "ptrs": regs[k]["ptrs"], "lex_ok": regs[k]["lex_ok"]} for k in regs},
           "options": opts, "notes": notes}
     json.dump(js, open(os.path.join(run.scratch, "consts_registry.json"), "w"), indent=1)
